@@ -96,6 +96,19 @@ def cli_layer_rule(p: Project, rep: Report, rule: str = "J-R3"):
         rep.check(rule, "extractns:only-options-given", verdict, "" if verdict else "the CLI layer is not `the options whose value is not None`", gloc(p, ens0))
 
 
+def acctinfo_layer_rule(p: Project, rep: Report, rule: str):
+    """discovered accounts rank right after the command line and before every file source"""
+    ma0 = _fn(p, "_merge_acctinfo")
+    ma = flat(p, OFXGET, ma0)
+    mx_ = Expander(ma)
+    ins = [c for c in ast.walk(ma) if isinstance(c, ast.Call) and isinstance(c.func, ast.Attribute) and c.func.attr == "insert" and text(c.func.value).endswith(".maps") and len(c.args) == 2]
+    if not ins:
+        rep.note(f"{rule} undecided: _merge_acctinfo no longer inserts into the chain's maps")
+        return
+    ok = all(mx_.t(c.args[0]) == "1" for c in ins)
+    rep.check(rule, "_merge_acctinfo:after-cli-before-files", ok, "" if ok else f"discovered accounts are inserted at position {[mx_.t(c.args[0]) for c in ins]}, not right after the command-line layer (index 1): with a config file in the chain the file's account lists shadow what the server reports, so --all requests stale / inactive accounts", gloc(p, ma0))
+
+
 def g_rules(p: Project, rep: Report):
     defaults, conf = _configurable(p)
     rep.unit("defaults_keys", len(defaults))
@@ -196,11 +209,7 @@ def g_rules(p: Project, rep: Report):
     mainf = _fn(p, "main")
     ok = any(isinstance(c, ast.Call) and text(c.func) == "merge_config" and len(c.args) == 2 and text(c.args[1]) == "USERCFG" for c in own_nodes(mainf))
     rep.check("G-R1", "main:merges-USERCFG", ok, "" if ok else "main() does not merge the layered USERCFG", gloc(p, mainf))
-    # _merge_acctinfo: discovered accounts rank after CLI, before files
-    ma = _fn(p, "_merge_acctinfo")
-    ins = [c for c in own_nodes(ma) if isinstance(c, ast.Call) and isinstance(c.func, ast.Attribute) and c.func.attr == "insert" and text(c.func.value).endswith(".maps")]
-    ok = bool(ins) and all(text(c.args[0]) == "1" for c in ins)
-    rep.check("G-R1", "_merge_acctinfo:after-cli-before-files", ok, "" if ok else "discovered accounts are not inserted right after the CLI layer", gloc(p, ma))
+    acctinfo_layer_rule(p, rep, "G-R1")
 
     rep.rule("G-R2", "every option key read as args[<k>] anywhere in ofxget (including loops over constant tuples) and every argparse dest is a key of DEFAULTS (the bottom layer), so every lookup is total and every option has a default")
     keys: Dict[str, ast.AST] = {}
